@@ -1,18 +1,20 @@
 // C12 bounded stand-in: operations that need an unavailable block report the load error.
 //
 // Bounds (quick | thorough):
-//   files: builder width W in {2,3} | {2,3,4}, size-4, chunk counts 2..10 | 2..W^3+W, and boxo
-//     balanced/trickle files with protobuf leaves (n in {3,8}); EVERY single non-root block made
-//     unavailable; sequential reads with buffer sizes {1,3,64}: the bytes delivered must be exactly
-//     content[:lo] (lo = start of the missing block's span) followed by an error that is the
-//     store's error (errors.Is) and never io.EOF.
-//   HAMTs: fanouts {8,16} | {8,16,64,256}; 150 | 1500 random + colliding names; EVERY single
-//     non-root shard unavailable, plus 30 | 300 random pairs of unavailable shards:
-//     lookups of every member and 30 non-members: if the name's hash path crosses an unavailable
-//     shard -> the store's error (not not-found); otherwise the normal answer;
-//     iteration: terminates within entries+shards+5 steps, yields every entry not beneath an
-//     unavailable shard exactly once (right link) and as many errors as there are outermost
-//     unavailable shards.
+//
+//	files: builder width W in {2,3} | {2,3,4}, size-4, chunk counts 2..10 | 2..W^3+W, and boxo
+//	  balanced/trickle files with protobuf leaves (n in {3,8}); EVERY single non-root block made
+//	  unavailable; sequential reads with buffer sizes {1,3,64}: the bytes delivered must be exactly
+//	  content[:lo] (lo = start of the missing block's span) followed by an error that is the
+//	  store's error (errors.Is) and never io.EOF.
+//	HAMTs: fanouts {8,16} | {8,16,64,256}; 150 | 1500 random + colliding names; EVERY single
+//	  non-root shard unavailable, plus 30 | 300 random pairs of unavailable shards:
+//	  lookups of every member and 30 non-members: if the name's hash path crosses an unavailable
+//	  shard -> the store's error (not not-found); otherwise the normal answer;
+//	  iteration: terminates within entries+shards+5 steps, yields every entry not beneath an
+//	  unavailable shard exactly once (right link) and as many errors as there are outermost
+//	  unavailable shards.
+//
 // Oracle: spans / shard membership / hash paths from vp's protowire walker.
 package c12
 
